@@ -9,7 +9,8 @@ META = {
                    'generic chain Operator -> OpCode -> VM callee (11-cell table, extracted). R10.2: the fused form is selected only when '
                    'the operand sides are preserved (identifier left, or mirrored/commutative operator). R10.3: frame-slot opcodes are '
                    'emitted only for Local symbols, global-slot opcodes only for Global ones (CSA operand provenance). R10.4: no value '
-                   'type that can sit in the constant pool can be mutated in place by the VM. R10.5: pool de-duplication compares tag and payload.',
+                   'type that can sit in the constant pool can be mutated in place by the VM. R10.5: pool de-duplication compares tag and payload.'
+                   ' R10.7 pooled values are literal payloads built through constructors and conversions only. R10.8 expression statements end in Pop whatever kind of variable they assign.',
     'exhaustive': True,
     'not_decided': ["equality of whole program variants' results (a metamorphic relation over runs)"],
 }
@@ -22,30 +23,10 @@ def run(ctx, rep):
     rep.rule('R10.3', 'local-slot opcodes only under scope == Local; global-slot opcodes only under scope == Global')
     rep.rule('R10.4', 'pool immutability: value types that can enter the constant pool are never mutated in place')
     rep.rule('R10.5', 'constants are de-duplicated by (type, value) only')
-    fm = tables.fused_map(ctx)
-    co = tables.compile_operator_map(ctx)['map']
-    n = 0
-    for (op, scope), fused in sorted(fm['map'].items()):
-        if not isinstance(fused, str) and scope == 'Local':
-            # more than one instruction sequence for one (operator, scope): which one is taken depends on something else (the
-            # literal's value, ...), so the fused form is no longer a function of the operator alone
-            rep.bad('R10.1', fm['fn'].path, 'Operator::%s' % op, 'for a local variable this operator selects several different instruction sequences: %s' % (fused,), fm['fn'].loc())
-            continue
-        if not isinstance(fused, str) or fused.startswith('<'):
-            if scope == 'Global':
-                rep.ob(fused == '<fallback>', 'R10.3', fm['fn'].path, '(%s, Global)' % op, 'no fused (frame-slot) opcode is chosen for a global symbol: %s' % (fused,), fm['fn'].loc())
-            continue
-        n += 1
-        rep.ob(scope == 'Local', 'R10.3', fm['fn'].path, '(%s, %s) -> %s' % (op, scope, fused), 'fused opcodes read a frame slot and are selected only for Local symbols', fm['fn'].loc())
-        g = co.get(op)
-        fc = chain.vm_callee(ctx, fused)
-        gc = chain.vm_callee(ctx, g) if isinstance(g, str) else None
-        fmeth = sorted(m for m, _ in fc) if fc else None
-        gmeth = sorted(m for m, _ in gc) if gc else None
-        rep.ob(fmeth is not None and fmeth == gmeth and len(fmeth) == 1, 'R10.1', fm['fn'].path, 'Operator::%s' % op,
-               'fused OpCode::%s applies Object::%s; generic OpCode::%s applies Object::%s' % (fused, fmeth, g, gmeth), fm['fn'].loc())
-        rep.sample({'operator': op, 'fused': fused, 'generic': g, 'callee': fmeth})
-    rep.count('fused_opcodes', n)
+    rep.rule('R10.8', 'an expression statement is compiled the same way whatever kind of variable it assigns: its code always ends in Pop')
+    from rules import c11 as _c11
+    _c11.check_stmt_expr_pop(csa_run.analyse(ctx), rep, 'R10.8')
+    check_fused_equals_generic(ctx, rep, 'R10.1', 'R10.3')
     c01.check_fused_sides(ctx, rep, 'R10.2')
     # R10.3 via CSA provenance violations
     R = csa_run.analyse(ctx)
@@ -62,6 +43,52 @@ def run(ctx, rep):
         if not any(v['text'].find('OpCode::%s ' % e) >= 0 for v in bad):
             rep.good('R10.3', 'compiler::Compiler', 'emit sites of OpCode::%s' % e, 'every emit site is under a test of the same symbol\'s scope (%d arms)' % len(arms), 'src/compiler.rs')
 
+    # R10.4
+    check_pool_by_value(ctx, rep, 'R10.4')
+    # R10.5
+    check_dedup(ctx, rep, 'R10.5')
+    rep.rule('R10.7', 'pooled constants are the payloads of literal nodes as written: the compiler does no arithmetic of its own on them')
+    check_literal_constants(ctx, rep, 'R10.7')
+    rep.rule('R10.6', 'operands of the fused instructions are not truncated (a constant index that does not fit selects another constant)')
+    from rules import c02
+    c02.check_casts(ctx, rep, 'R10.6', only=('compiler::Compiler::compile_const_var_infix_expression', 'compiler::Compiler::add_constant'))
+
+
+def check_fused_equals_generic(ctx, rep, r1, r3=None):
+    """every specialised (variable op literal) instruction applies the same primitive of the object layer as the generic instruction
+    of its operator; (r3) and is selected only for frame-slot variables"""
+    fm = tables.fused_map(ctx)
+    co = tables.compile_operator_map(ctx)['map']
+    n = 0
+    for (op, scope), fused in sorted(fm['map'].items()):
+        if not isinstance(fused, str) and scope == 'Local':
+            # more than one instruction sequence for one (operator, scope): which one is taken depends on something else (the
+            # literal's value, ...), so the fused form is no longer a function of the operator alone
+            rep.bad(r1, fm['fn'].path, 'Operator::%s' % op, 'for a local variable this operator selects several different instruction sequences: %s' % (fused,), fm['fn'].loc())
+            continue
+        if not isinstance(fused, str) or fused.startswith('<'):
+            if scope == 'Global':
+                if r3:
+                    rep.ob(fused == '<fallback>', r3, fm['fn'].path, '(%s, Global)' % op, 'no fused (frame-slot) opcode is chosen for a global symbol: %s' % (fused,), fm['fn'].loc())
+            continue
+        n += 1
+        if r3:
+            rep.ob(scope == 'Local', r3, fm['fn'].path, '(%s, %s) -> %s' % (op, scope, fused), 'fused opcodes read a frame slot and are selected only for Local symbols', fm['fn'].loc())
+        g = co.get(op)
+        fc = chain.vm_callee(ctx, fused)
+        gc = chain.vm_callee(ctx, g) if isinstance(g, str) else None
+        fmeth = sorted(m for m, _ in fc) if fc else None
+        gmeth = sorted(m for m, _ in gc) if gc else None
+        rep.ob(fmeth is not None and fmeth == gmeth and len(fmeth) == 1, r1, fm['fn'].path, 'Operator::%s' % op,
+               'fused OpCode::%s applies Object::%s; generic OpCode::%s applies Object::%s' % (fused, fmeth, g, gmeth), fm['fn'].loc())
+        rep.sample({'operator': op, 'fused': fused, 'generic': g, 'callee': fmeth})
+    rep.count('fused_opcodes', n)
+
+
+def check_pool_by_value(ctx, rep, rule):
+    """a literal denotes its value at every evaluation: what the constant pool holds is handed to the program by value - types
+    that the VM mutates in place are copied by OpCode::Const"""
+    F = ctx.facts()
     # R10.4
     P = {}
     for f, b, t in F.callers_of(lambda p: p == 'compiler::Compiler::add_constant'):
@@ -118,7 +145,7 @@ def run(ctx, rep):
     rep.table('pool_types', {k: v for k, v in P.items()})
     rep.table('mutated_in_place', M)
     if 'unknown' in P:
-        raise CheckerError('R10.4: cannot determine the type of a value passed to add_constant at %s' % P['unknown'])
+        raise CheckerError(rule + ': cannot determine the type of a value passed to add_constant at %s' % P['unknown'])
     # does the Const arm copy before pushing?
     v = vmx.vmx(ctx)
     const_copies = set()
@@ -151,18 +178,11 @@ def run(ctx, rep):
     if any_path and all_copy:
         const_copies.add('String')
     for ty in sorted(set(P) & set(M)):
-        rep.ob(ty in const_copies, 'R10.4', 'vm::VM::run', 'Const hands out pooled %s by reference' % ty,
+        rep.ob(ty in const_copies, rule, 'vm::VM::run', 'Const hands out pooled %s by reference' % ty,
                'a %s literal lives in the constant pool (added at %s) and the VM mutates %s values in place (%s) while OpCode::Const pushes the pooled object itself: '
                'a literal can be changed for later evaluations of the same literal' % (ty, P[ty][0], ty, M[ty][0].split(' ')[0]), 'src/vm.rs')
     for ty in sorted(set(P) - set(M)):
-        rep.good('R10.4', 'vm::VM::run', 'pooled %s' % ty, 'values of this type are never mutated in place', 'src/vm.rs')
-    # R10.5
-    check_dedup(ctx, rep, 'R10.5')
-    rep.rule('R10.7', 'pooled constants are the payloads of literal nodes as written: the compiler does no arithmetic of its own on them')
-    check_literal_constants(ctx, rep, 'R10.7')
-    rep.rule('R10.6', 'operands of the fused instructions are not truncated (a constant index that does not fit selects another constant)')
-    from rules import c02
-    c02.check_casts(ctx, rep, 'R10.6', only=('compiler::Compiler::compile_const_var_infix_expression', 'compiler::Compiler::add_constant'))
+        rep.good(rule, 'vm::VM::run', 'pooled %s' % ty, 'values of this type are never mutated in place', 'src/vm.rs')
 
 
 def check_dedup(ctx, rep, rule):
@@ -242,28 +262,49 @@ def check_literal_constants(ctx, rep, rule):
                 ops.append(x[1])
             if x and x[0] == 'unop' and x[1] in ('Neg', 'Not'):
                 ops.append(x[1])
-            if x and x[0] == 'call' and x[1].endswith(('::neg', '::add', '::sub', '::mul', '::div', '::rem', '::checked_neg', '::checked_add', '::checked_sub',
-                                                         '::checked_mul', '::wrapping_neg', '::abs', '::pow', '::powi', '::powf')):
-                ops.append(x[1].split('::')[-1])
+            if x and x[0] == 'call':
+                if x[1] == 'object::Object::function':
+                    return          # a function descriptor: code position and frame size, not a literal (R02.6 / R12.1 cover those)
+                passes = x[1].startswith(('object::Object::', '<object::Object as object::From')) or x[1].endswith(
+                    ('::as_str', '::clone', '::to_string', '::to_owned', 'Deref>::deref', '::into', '::from', 'Try>::branch', '::as_ref', '::borrow',
+                     '::as_slice', '::to_vec', '::from_residual', '::as_deref'))
+                if not passes:
+                    # anything else computes a new value from the literal at compile time (`-x`, `x.len()`, `x.parse()`, ...)
+                    ops.append(x[1].split('::')[-1])
             for y in x:
                 if isinstance(y, tuple):
                     walk(y, depth + 1)
         walk(v)
         # multi-definition locals the value flows through (`let folded = match .. { .. => Some(-x), .. }`): every definition counts
         from rules import psc as _psc
+        def literal_locals(x, depth=0):
+            # locals the literal payload flows through; what feeds a function descriptor is not a literal
+            if not isinstance(x, tuple) or depth > 12:
+                return []
+            if x and x[0] == 'call' and x[1] == 'object::Object::function':
+                return []
+            if x and x[0] == 'mlocal':
+                return [x[1]]
+            out = []
+            for y in x:
+                if isinstance(y, tuple):
+                    out += literal_locals(y, depth + 1)
+            return out
         seen_l = set()
-        todo = list(_psc.mlocals(v))
+        todo = literal_locals(v)
         while todo and len(seen_l) < 12:
             l_ = todo.pop()
             if l_ in seen_l or 1 <= l_ <= f.arg_count:
                 continue
             seen_l.add(l_)
             for d in f.defs().get(l_, []):
-                vals = [sym(f, a) for a in d[2]['args']] if d[0] == 'call' else [_psc.sym_rv(f, d[3])]
+                if d[0] == 'call' and callee_name(d[2]) == 'object::Object::function':
+                    continue
+                vals = [('call', callee_name(d[2]), tuple(sym(f, a) for a in d[2]['args']))] if d[0] == 'call' else [_psc.sym_rv(f, d[3])]
                 if d[0] == 'assign' and d[3]['k'] == 'aggregate':
                     vals = [sym(f, o_) for o_ in d[3]['ops']]
                 for x_ in vals:
                     walk(x_)
-                    todo += list(_psc.mlocals(x_))
+                    todo += literal_locals(x_)
         rep.ob(not ops, rule, f.path, 'constant#%d' % n, 'the pooled value is a literal payload as written (operators applied at compile time: %s)' % sorted(set(ops)), span_loc(t['span']))
     rep.count('pooled_constant_sites', n)
